@@ -125,6 +125,109 @@ def global_state():
     return sorted(set(hits))
 
 
+OBSERVED_TRAITS = {"HandRanker", "HandValidator", "Permutator", "Shifty", "PokerCard", "BC64", "From", "TryFrom", "Into", "TryInto",
+                   "Ord", "PartialOrd", "PartialEq", "Eq", "Default", "AsRef", "Deref", "DerefMut", "Borrow", "Index", "IndexMut",
+                   "IntoIterator", "FromIterator", "Hash", "Clone", "Copy"}
+
+
+def blocks(code):
+    """(header, body) of every `impl …{}` / `trait …{}` block of stripped code"""
+    out = []
+    for m in re.finditer(r"\b(impl\b(?:[^{;\[]|\[[^\]]*\])*|(?:pub(?:\([a-z]+\))?\s+)?trait\s+\w+[^{;]*)\{", code):
+        i = m.end()
+        depth = 1
+        j = i
+        while j < len(code) and depth:
+            if code[j] == "{":
+                depth += 1
+            elif code[j] == "}":
+                depth -= 1
+            j += 1
+        out.append((" ".join(m.group(1).split()), code[i:j - 1]))
+    return out
+
+
+def api_surface():
+    """per file: for every impl / trait block its header and the names of the functions it defines"""
+    res = {}
+    for base, _, names in os.walk(os.path.join(REPO, "src")):
+        for nme in sorted(names):
+            if not nme.endswith(".rs"):
+                continue
+            p = os.path.join(base, nme)
+            code = blank_strings(drop_test_modules(strip(open(p, encoding="utf-8", errors="replace").read())))
+            d = {}
+            for mm in re.finditer(r"#\[derive\(([^)]*)\)\]\s*(?:#\[[^\]]*\]\s*)*(?:pub(?:\([a-z]+\))?\s+)?(?:struct|enum)\s+(\w+)", code):
+                d["derive on " + mm.group(2)] = sorted(x.strip() for x in mm.group(1).split(",") if x.strip())
+            code = re.sub(r"#!?\[[^\]]*\]", " ", code)
+            for head, body in blocks(code):
+                # only functions at the top level of the block
+                depth, top, k = 0, [], 0
+                for mm in re.finditer(r"[{}]|\bfn\s+([A-Za-z_0-9]+)|\bpub\s+const\s+([A-Za-z_0-9]+)\s*:", body):
+                    if mm.group(0) == "{":
+                        depth += 1
+                    elif mm.group(0) == "}":
+                        depth -= 1
+                    elif depth == 0:
+                        top.append(mm.group(1) if mm.group(1) else "const " + mm.group(2))
+                d.setdefault(head, [])
+                d[head] = sorted(set(d[head]) | set(top))
+            res[os.path.relpath(p, REPO)] = d
+    return res
+
+
+def surface_changes():
+    """changes of the entry-point surface that can make an existing call (or a call a user would naturally write) reach
+    code the harness does not: a new impl of an observed trait (e.g. for `&mut T`, for an array), a method added to a trait,
+    a function whose name already names an entry point elsewhere (inherent `from` beside `From::from`, …).
+    Returns (list of 'file: description') or None when there are no pins."""
+    try:
+        pins = json.load(open(PINS))["api"]
+    except (OSError, ValueError, KeyError):
+        return None
+    cur = api_surface()
+    known_names = {f for d in pins.values() for fs in d.values() for f in fs}
+    out = []
+    for file, d in sorted(cur.items()):
+        old = pins.get(file, {})
+        for head, fns in sorted(d.items()):
+            if head not in old:
+                if head.startswith("derive on "):
+                    continue
+                m = re.match(r"impl(?:\s*<[^>]*>)?\s+(?:[a-z_:]*::)?([A-Za-z]+)(?:<[^{]*?>)?\s+for\s+(.+)$", head)
+                if m and m.group(1) in OBSERVED_TRAITS:
+                    out.append(f"{file}: new `{head}`")
+                elif head.startswith(("trait", "pub trait")):
+                    out.append(f"{file}: new `{head}`")
+                else:
+                    clash = [f for f in fns if f in known_names]
+                    if clash:
+                        out.append(f"{file}: new `{head}` defines {', '.join(clash)}, names of existing entry points")
+                continue
+            added = [f for f in fns if f not in old[head]]
+            if head.startswith("derive on "):
+                if sorted(fns) != sorted(old[head]):
+                    out.append(f"{file}: `{head}` changed from {old[head]} to {fns}")
+                continue
+            if not added:
+                continue
+            consts = [f for f in added if f.startswith("const ")]
+            added = [f for f in added if not f.startswith("const ")]
+            if consts:
+                out.append(f"{file}: `{head}` publishes new constants ({', '.join(c[6:] for c in consts)}) that the translator does not dump")
+            if not added:
+                continue
+            if "trait " in head.split(" for ")[0] and not head.startswith("impl"):
+                out.append(f"{file}: `{head}` gains {', '.join(added)}")
+            elif head.startswith("impl") and " for " in head:
+                out.append(f"{file}: `{head}` now also defines {', '.join(added)} (overrides provided methods of the trait)")
+            else:
+                clash = [f for f in added if f in known_names]
+                if clash:
+                    out.append(f"{file}: `{head}` now defines {', '.join(clash)}, names of existing entry points elsewhere")
+    return out
+
+
 def current():
     res = {}
     for base, _, names in os.walk(os.path.join(REPO, "src")):
@@ -149,8 +252,9 @@ if __name__ == "__main__":
     if "--write" in sys.argv:
         import subprocess
         head = subprocess.run(["git", "-C", REPO, "rev-parse", "--short", "HEAD"], capture_output=True, text=True).stdout.strip()
-        json.dump({"pinned_at": head, "files": current()}, open(PINS, "w"), indent=1, sort_keys=True)
+        json.dump({"pinned_at": head, "files": current(), "api": api_surface()}, open(PINS, "w"), indent=1, sort_keys=True)
         print("pinned", len(current()), "files at", head)
     else:
         print(drift())
         print(global_state())
+        print(surface_changes())
